@@ -133,6 +133,10 @@ unit(K("cache_dir_ops", "c16_confinement", functions=CDIR, bounds="every accepte
 unit(K("cache_dir_ops", "c16_sanity_twin", functions=CDIR, expect="fail", timeout=600, rules=None))
 unit(K("cache_dir_ops", "c02_cleanup_temp_by_age", functions=CDIR, bounds="2 temp files, ages on both sides of and at the limit, any clock", timeout=1200))
 unit(K("cache_dir_ops", "c02_cleanup_temp_missing_dir", functions=CDIR, timeout=600))
+unit(K("cache_dir_ops", "c02_cleanup_temp_debris", functions=CDIR, timeout=900,
+       bounds="temp directory holding a stale second link to the inode published under the key (crash debris)"))
+unit(K("cache_dir_ops", "c05_cleanup_temp_vanish", functions=CDIR, timeout=900,
+       bounds="one stale temp file that a competing cleaner removes between our stat and our unlink"))
 
 # ---- sharded cache ------------------------------------------------------------------------------------
 for n in ["sharded_get_01", "sharded_get_10", "sharded_touch_01", "sharded_set_absent", "sharded_set_in_secondary", "sharded_set_in_primary_heavy",
@@ -196,7 +200,7 @@ RELY = "rely/guarantee: between any two calls of the operation the shared direct
 prop("C01", ["stack_gou_glue", "proto_glue", "plain_get_env", "raw_insert_or_update_basic", "raw_insert_or_touch_basic", "raw_ops_sanity_twin"],
      ["plain_set_env", "plain_put_env", "sharded_get_01", "sharded_set_absent_env", "stack_get_w1r1_nock", "stack_set_temp_w1r1", "plain_set_seq", "plain_put_seq"],
      outside=["byte-granular reads (values are abstracted to content ids; 'complete' is set only by the last write)", "NFS close-to-open semantics", "peers that violate the protocol"], assumptions=COMMON_ASSUME + [RELY])
-prop("C02", ["proto_glue", "raw_insert_or_update_basic", "raw_insert_or_touch_basic", "c02_cleanup_temp_by_age", "c02_cleanup_temp_missing_dir", "raw_apply_update_evict_a_moveback_b", "raw_ops_sanity_twin"],
+prop("C02", ["c02_cleanup_temp_debris", "proto_glue", "raw_insert_or_update_basic", "raw_insert_or_touch_basic", "c02_cleanup_temp_by_age", "c02_cleanup_temp_missing_dir", "raw_apply_update_evict_a_moveback_b", "raw_ops_sanity_twin"],
      ["plain_set_seq", "plain_put_seq", "plain_set_fault", "sharded_set_absent", "sharded_put_in_secondary", "stackc_set_w1r1_cp", "stackc_set_temp_w1r1_cp", "stack_set_temp_w1r1"],
      outside=["power-loss reordering of un-fsynced directory updates (documented: directories are not fsynced)", "validity is asserted at every call boundary of KFS, i.e. at every point where the process can die between two system calls"],
      assumptions=COMMON_ASSUME)
@@ -207,7 +211,7 @@ prop("C04", ["stack_gou_glue", "proto_glue", "plain_get_env", "plain_touch_env",
      ["plain_put_env", "plain_set_env", "plain_put_seq", "stackc_put_w1r1", "stack_put_w1r1"],
      outside=["linearizability is decided as a forward simulation per operation (linearization point = the publishing / opening call), not by enumerating histories"],
      assumptions=COMMON_ASSUME + [RELY])
-prop("C05", ["proto_glue", "plain_get_env", "plain_touch_env", "raw_apply_update_evict_a_moveback_b", "raw_collect_a_temp", "raw_ops_sanity_twin"],
+prop("C05", ["c05_cleanup_temp_vanish", "proto_glue", "plain_get_env", "plain_touch_env", "raw_apply_update_evict_a_moveback_b", "raw_collect_a_temp", "raw_ops_sanity_twin"],
      ["plain_write_missing_dir_env", "plain_set_env", "plain_put_env", "sharded_set_absent_env", "raw_collect_ab_sub", "sharded_set_in_secondary"],
      outside=["adversarial deletion of young temp files (excluded by the property)"], assumptions=COMMON_ASSUME + [RELY])
 prop("C06", ["plain_get_env", "plain_touch_env", "plain_ops_sanity_twin"],
